@@ -363,6 +363,73 @@ def fam_raw_bodies():
         targets=len(targets), bodies=len(RAW), content_types=len(CTYPES)))
 
 
+# ---- framing headers ----------------------------------------------------------
+
+def content_length_values():
+    """Values of a Content-Length header, one per equivalence class of what
+    Python's own predicates say about a header string (a WSGI header value
+    is a latin-1 string): computed here, not listed by hand.  Classes of a
+    character: ASCII digit; digit for str.isdigit() but not for int()
+    (superscripts); numeric but not digit (fractions); sign; space; other.
+    Strings: each class alone, before and after an ASCII digit, and digit
+    strings on both sides of the interpreter's int/str conversion limit."""
+    import sys
+    classes = {}
+    for i in range(256):
+        c = chr(i)
+        try:
+            int(c)
+            conv = True
+        except ValueError:
+            conv = False
+        key = (c.isdigit(), conv, c.isnumeric(), c in '+-', c.isspace())
+        classes.setdefault(key, c)
+    out = ['']
+    for c in classes.values():
+        out += [c, '1' + c, c + '1']
+    lim = getattr(sys, 'get_int_max_str_digits', lambda: 4300)() or 4300
+    out += ['9' * lim, '9' * (lim + 1), '0' * (lim + 1) + '1']
+    # and on both sides of what the platform can use as a size
+    out += [str(sys.maxsize), str(sys.maxsize + 1), str(2 ** 32),
+            str(2 ** 64)]
+    seen = []
+    for v in out:
+        if v not in seen:
+            seen.append(v)
+    return seen
+
+
+def fam_content_length():
+    targets = [('POST', '/resource_providers', b'{"name": "x"}'),
+               ('PUT', '/resource_providers/%s/inventories' % U(1),
+                b'{"resource_provider_generation": 0, "inventories": {}}'),
+               ('GET', '/resource_providers', b''),
+               ('DELETE', '/resource_providers/' + U(1), b'')]
+    values = content_length_values()
+
+    def path(ctx):
+        app.setup()
+        method, url, raw = targets[symex.choose(len(targets))]
+        v = values[symex.choose(len(values))]
+        with _doc_world(ctx) as w:
+            pre = w.dump()
+            r = app.call(method, url, raw_body=raw or None,
+                         content_type='application/json' if raw else None,
+                         version='1.36', roles='admin,service',
+                         environ={'CONTENT_LENGTH': v})
+            post = w.dump()
+            what = '%s %s content-length %a' % (method, url.split('/')[1],
+                                                v[:12])
+            well_formed(ctx, r, what)
+            unchanged_if_malformed(ctx, r, pre, post, what)
+            return finish(ctx, str(r.status))
+    return Family('content-length', path, bounds=dict(
+        targets=len(targets), values=len(values),
+        classes='per-character classes of (isdigit, int() accepts, '
+        'isnumeric, sign, space) over latin-1, alone / after / before a '
+        'digit; digit strings around the int conversion limit'))
+
+
 # ---- path items ---------------------------------------------------------------
 
 def fam_path_items():
@@ -756,7 +823,7 @@ def families(tier):
     fams = [fam_numbers(s) for s in shapes]
     fams += [fam_special_floats(), fam_mutations(), fam_error_format(),
              fam_query_numbers(), fam_query_strings(), fam_version_bands(),
-             fam_strings(), fam_raw_bodies(), fam_path_items(),
+             fam_strings(), fam_raw_bodies(), fam_content_length(), fam_path_items(),
              fam_query_repeats()]
     if os.environ.get('VERIF_NO_CROSSHAIR') != '1':
         fams.append(fam_crosshair(8 if tier == 'quick' else 60))
